@@ -137,7 +137,7 @@ def run_case(case, ctx):
 
 
 def shard_main(ctx):
-    ctx.explore("hash", cases(), run_case, ctx.n(40, 800))
+    ctx.explore("hash", cases(), run_case, ctx.n(60, 1000))
 
 
 def replay(case, ctx):
